@@ -335,7 +335,9 @@ def C16(run):
 def C05(run):
     q = run.tier == "quick"
     # design level: exhaustive interleavings on small grids, every cache state an earlier complete run can leave; liveness with fairness
-    for cfgname in (["MCSched_quick.cfg", "MCSched_2x3.cfg", "MCSched_3x4.cfg"] if q else ["MCSched_quick.cfg", "MCSched_2x3.cfg", "MCSched_3x4.cfg", "MCSched_3x4w.cfg", "MCSched_2S.cfg"]):
+    # (MCSched_3x3_partials: every subset of the partial files on an otherwise cold cache - what a crash before any merge leaves -
+    #  checked for no invalid transition, merges once and in order, worker accounting, termination)
+    for cfgname in (["MCSched_quick.cfg", "MCSched_2x3.cfg", "MCSched_3x4.cfg", "MCSched_3x3_partials.cfg"] if q else ["MCSched_quick.cfg", "MCSched_2x3.cfg", "MCSched_3x4.cfg", "MCSched_3x3_partials.cfg", "MCSched_3x4w.cfg", "MCSched_2S.cfg"]):
         run.model_check("MCSched", cfgname, workers=16, timeout=3000)
     # arbitrary cache subsets: the design-level counterexample of known finding D7 must still be there (not an alarm)
     res = run.tlc("MCSched", "MCSched_2x3_any.cfg", workers=4, timeout=600, expect_violation=True)
@@ -343,7 +345,7 @@ def C05(run):
     # real scheduler: every Update of real tier1 runs (hook), random job completion orders, cold / warm / subset caches
     tr = _t(run, "system-sched.ndjson")
     total = 0
-    for kind, n in (("strategies", 10 if q else 300), ("subsets", 8 if q else 300), ("schedcex", 4 if q else 40)):
+    for kind, n in (("strategies", 10 if q else 300), ("subsets", 12 if q else 300), ("schedcex", 4 if q else 40)):
         trk = _t(run, "system-sched-%s.ndjson" % kind)
         info = run.harness("system", trk, extra=["-x", kind, "-n", str(n)], timeout=3000)
         v = run.validate_sharded("TraceSched", trk, boundary='"ev":"prog"', shards=12, xss="512m")
